@@ -114,6 +114,39 @@ def nfa_state(idx):
     return E(F(Par(1), "states"), idx)
 
 
+BT_GET = "alloc::collections::BTreeMap::get"
+
+
+def LOOKUP(state, label, NS=None):
+    """the child lookup `states[state].edges.get(&label)` (the body of the private `child_id` helper, which the normal form
+    inlines — so the same rules cover a builder that writes the lookup in place)"""
+    return C(BT_GET, F(nfa_state(state), "edges", NS), label)
+
+
+def child_lookups(fv, root, NS):
+    """[(bb, state term, label term)] of every child lookup in the root body"""
+    out = []
+    for vw, bi, c, tj in fv.calls(lambda c: core.callee_base(c.key) == BT_GET):
+        if vw is not root:
+            continue
+        recv = vw.op(tj["args"][0])
+        if recv[0] == "field" and recv[3] == "edges" and recv[2] == NS and recv[1][0] == "elem":
+            out.append((bi, recv[1][2], vw.op(tj["args"][1])))
+    return out
+
+
+def state_local_of(root, b, state_term):
+    """the user-named local whose value is the given state term (the walk cursor)"""
+    for l in sorted(b.local_names):
+        if l > b.arg_count:
+            try:
+                if core.same(pnorm(root.T.local(l)), state_term):
+                    return l
+            except Exception:
+                continue
+    return None
+
+
 # ----------------------------------------------------------------------------- outputs pass
 
 def rule_outputs_pass(ctx, R, NR):
@@ -362,15 +395,15 @@ def _fail_pass(ctx, R, NR, b):
         tgt = root.place(st["lhs"])
         if m(F(nfa_state(child), "fail", NS), tgt):
             child_write = (bi, si)
-            opts = [P(C(lambda k: k.endswith("::child_id"), Par(1), ANY, label)), K(0)]
+            opts = [P(LOOKUP(ANY, label, NS)), K(0)]
             if leftmost:
                 opts.append(K(1))
             ok = m(Phi(*opts, req=[0, 1] + ([2] if leftmost else [])), val)
             deferred_fail_value = (ok, bi, si, val)
             # the fail chain: first argument of child_id
             for x in members(val):
-                if x[0] == "payload" and x[1][0] == "call":
-                    f = x[1][2][1]
+                if x[0] == "payload" and x[1][0] == "call" and x[1][2] and x[1][2][0][0] == "field" and x[1][2][0][1][0] == "elem":
+                    f = x[1][2][0][1][2]
                     okc = all(m(OneOf(F(S, "fail", NS), F(nfa_state(ANY), "fail", NS)), y) for y in members(f) if y[0] != "loop") and \
                         any(m(F(S, "fail", NS), y) for y in members(f))
                     ctx.check(okc, "NFA-FAIL", b, "fail-chain:" + tag, b.loc(bi, si),
@@ -449,10 +482,9 @@ def _fail_pass(ctx, R, NR, b):
                       "on every path through the edge loop body the child's fail link is written and the child enqueued")
     # the chain walk restarts at the parent's fail link for EVERY child: the walk variable is modified by the walk,
     # so its initialisation from s.fail must lie inside the per-edge loop body
-    cids = [(vw, bi, tj) for vw, bi, c, tj in fv.calls(lambda c: c.name == "child_id") if vw is root]
+    cids = child_lookups(fv, root, NS)
     if len(cids) == 1 and len(sws_e := switches_on(root, lambda d: d[0] == "discr" and d[1][0] == "call" and d[1][3] == esite)) == 1:
-        from .search import ttj_state_local
-        wl = ttj_state_local(b, cids[0][2])
+        wl = state_local_of(root, b, cids[0][1])
         some_e, none_e = opt_arms(sws_e[0][1])
         inits = []
         if wl is not None:
@@ -462,7 +494,7 @@ def _fail_pass(ctx, R, NR, b):
                     if m(F(S, "fail", NS), t):
                         inits.append(d[1])
         ctx.check(bool(inits) and all(b.edge_guards((sws_e[0][0], some_e), ib) for ib in inits) and
-                  not b.reaches(ebi, cids[0][1], avoid=set(inits)), "NFA-FAIL", b, "chain-restarts-per-child:" + tag, b.loc(cids[0][1]),
+                  not b.reaches(ebi, cids[0][0], avoid=set(inits)), "NFA-FAIL", b, "chain-restarts-per-child:" + tag, b.loc(cids[0][0]),
                   "for every child the search for its fail link must start again at the parent's fail link (the walk variable is "
                   "advanced by the walk and must be re-initialised inside the edge loop)")
     # guards of the constant results (ROOT only when the chain reached ROOT; DEAD only on a DEAD test)
@@ -518,15 +550,14 @@ def _fail_table(NR, b, fv, leftmost, esite, child_write):
                     return True
             return False
         return f
-    cids = [(bi, tj) for vw, bi, c, tj in fv.calls(lambda c: c.name == "child_id") if vw is root]
+    cids = child_lookups(fv, root, NS)
     if not cids:
         return False
-    csites = {(b.path, bi) for bi, _ in cids}
+    csites = {(b.path, bi) for bi, _, _ in cids}
     is_child = lambda t: t[0] == "call" and t[3] in csites
-    if not all(cursor(root.op(tj["args"][1])) for _, tj in cids):
+    if not all(cursor(st_) for _, st_, _ in cids):
         return False
-    from .search import ttj_state_local
-    wl = ttj_state_local(b, cids[0][1])
+    wl = state_local_of(root, b, cids[0][1])
     adv = {bi for bi, si, s_ in b.stmts() if s_["k"] == "assign" and not s_["lhs"]["proj"] and s_["lhs"]["local"] == wl and b.in_cycle(bi)
            and nxt(pnorm(root.T.rvalue(s_["rv"])))} if wl is not None else set()
     pull = esite[1]
@@ -589,7 +620,7 @@ def _const_result_guards(ctx, NR, b, fv, leftmost, tag, table_ok=False):
     """`break ROOT` only when the state just tried (the argument of child_id) is ROOT itself, i.e. after
     ROOT's own edge has been tried; `DEAD` results only under an `== DEAD` test."""
     root = fv.root
-    tried = [vw.op(tj["args"][1]) for vw, bi, c, tj in fv.calls(lambda c: c.name == "child_id") if vw is root]
+    tried = [st_ for _, st_, _ in child_lookups(fv, root, NR.NS)]
     for bi, si, st in b.stmts():
         if st["k"] != "assign" or st["lhs"]["proj"]:
             continue
@@ -743,7 +774,19 @@ def rule_add(ctx, R, NR, rules=None):
                         not any(mb in b.reach(none_, avoid_blocks=[sbi]) for mb, _ in muts):
                     zg = (sbi, stj)
                     zcont = [some_]
-        ctx.check(zg is not None and len(ia) >= 2, "VALID-EMPTY", b, "zero-length-guard", b.span,
+        zsem = False
+        if zg is None:
+            # any other placement of the guard (e.g. in an inlined helper whose Result is propagated): evaluated under the
+            # assumption NonZeroU32::new(len) is None / Some
+            nz = [bi_ for vw_, bi_, c_, tj_ in fv.calls(lambda c: core.callee_base(c.key) == "core::num::NonZero::new") if vw_ is root]
+            if len(nz) == 1:
+                zsite = (b.path, nz[0])
+                is_nz = lambda t: t[0] == "call" and t[3] == zsite
+                mb = {bi_ for bi_, _ in muts} | {bi_ for bi_, _ in lenw}
+                v_zero = cond.explore(root, [0], [], some_atoms=[(is_nz, False)])
+                v_pos = cond.explore(root, [0], [], some_atoms=[(is_nz, True)])
+                zsem = v_zero is not None and v_pos is not None and not (v_zero & mb) and bool(v_pos & mb) and bool(v_zero & set(b.return_blocks()))
+        ctx.check((zg is not None or zsem) and len(ia) >= 2, "VALID-EMPTY", b, "zero-length-guard", b.span,
                   "add must reject a zero-length pattern with invalid_argument (NonZero::new(len).ok_or_else(..)?)")
         if zg:
             sbi, stj = zg
@@ -789,7 +832,7 @@ def _is_lf_shadow_exit(b, root, bi):
 
 def _walk_state_pattern(NR):
     """the insertion cursor: phi{ROOT, child_id payload, fresh id}"""
-    return Phi(K(0), P(C(lambda k: k.endswith("::child_id"), Par(1), ANY, ANY)), C(VEC_LEN, F(Par(1), "states")), req=[0, 1, 2])
+    return Phi(K(0), P(LOOKUP(ANY, ANY, NR.NS)), C(VEC_LEN, F(Par(1), "states")), req=[0, 1, 2])
 
 
 def _nfa_lf(ctx, NR, b, fv, want):
@@ -824,7 +867,7 @@ def _nfa_lf(ctx, NR, b, fv, want):
         rets = b.reachable_from(arm)
         touches = [bi for vw, bi, c, tj in fv.calls() if vw is root and bi in rets and
                    core.callee_base(c.key) in ("alloc::collections::BTreeMap::insert", VEC_PUSH, "core::option::Option::replace")]
-        childcalls = [bi for vw, bi, c, tj in fv.calls(lambda c: c.name == "child_id") if vw is root]
+        childcalls = [bi for bi, _, _ in child_lookups(fv, root, NS)]
         before_descend = all(b.dominates(sbi, cb) for cb in childcalls) and bool(childcalls)
         if want("NFA-LF"):
             ctx.check(cur_ok and not touches, "NFA-LF", b, "shadow-return", b.loc(ibi),
@@ -884,14 +927,17 @@ def _stat_ns(ctx, NR, b, fv):
               not b.reaches(first, first, avoid=[second]), "STAT-NS", b, "insert-push-both", b.loc(first),
               "after the first of (insert, push) the other must follow on every path")
     # only on the missing-child arm
-    cc = [(bi) for vw, bi, c, tj in fv.calls(lambda c: c.name == "child_id") if vw is root]
+    cc = [bi for bi, _, _ in child_lookups(fv, root, NS)]
     if len(cc) == 1:
-        sw = switches_on(root, lambda d: d[0] == "discr" and d[1][0] == "call" and d[1][3] == (b.path, cc[0]))
-        if len(sw) == 1:
-            sbi, stj, _ = sw[0]
-            some, none = opt_arms(stj)
-            ctx.check(b.edge_guards((sbi, none), pbi) and b.edge_guards((sbi, none), ibi), "STAT-NS", b, "create-only-if-missing", b.loc(pbi),
-                      "a node is created only when the cursor state has no child for the label")
+        # decided under the assumption "the lookup found a child" / "found none" (the result may be re-wrapped before it is tested)
+        lsite = (b.path, cc[0])
+        is_look = lambda t: t[0] == "call" and t[3] == lsite
+        pl_ = [bi2 for vw, bi2, c, tj in fv.calls(lambda c: core.callee_base(c.key) == "core::iter::Iterator::next") if vw is root and bi2 in b.reach(cc[0])]
+        v_hit = cond.explore(root, [cc[0]], [], stop=pl_, some_atoms=[(is_look, True)])
+        v_miss = cond.explore(root, [cc[0]], [], stop=pl_, some_atoms=[(is_look, False)])
+        ctx.check(v_hit is not None and v_miss is not None and pbi not in v_hit and ibi not in v_hit and pbi in v_miss and ibi in v_miss,
+                  "STAT-NS", b, "create-only-if-missing", b.loc(pbi),
+                  "a node is created only when the cursor state has no child for the label")
     # the pushed state is a default state
     ctx.check(any(x[0] == "call" and "Default::default" in str(x[1]) for x in walk(pv)), "STAT-NS", b, "fresh-default-state", b.loc(pbi),
               "a new node must be a default (empty) state; found %s" % show(pv))
@@ -977,7 +1023,7 @@ def _val_add(ctx, NR, b, fv):
             ctx.check(okl, "VAL-ADD", b, "length-sums-num_bytes", b.loc(bi),
                       "the stored length must be the sum of num_bytes() over all labels of the pattern; found %s" % show(ln))
     # the walk consumes every label of the pattern: one pull over param pattern, cursor advanced each step
-    cids = [bi2 for vw, bi2, c, tj in fv.calls(lambda c: c.name == "child_id") if vw is root]
+    cids = [bi2 for bi2, _, _ in child_lookups(fv, root, NS)]
     pulls = [(bi2, root.op(tj["args"][0])) for vw, bi2, c, tj in fv.calls(lambda c: core.callee_base(c.key) == "core::iter::Iterator::next")
              if vw is root and any(bi2 in b.reach(x) and x in b.reach(bi2) for x in cids)]
     ctx.check(len(pulls) == 1 and m(Par(2), strip_iter(pat_iter_origin(pulls[0][1]))), "VAL-ADD", b, "walk-whole-pattern", b.span,
@@ -995,31 +1041,38 @@ def _val_add(ctx, NR, b, fv):
 # ----------------------------------------------------------------------------- EdgeLabel (CW-NB)
 
 def rule_child_id(ctx, R, NR):
-    """NFA-CHILD: child_id(s, c) is the edge-map lookup of label c at state s"""
+    """NFA-CHILD: a private child-lookup helper (child_id), if the builder has one, is the edge-map lookup of label c at state
+    s.  The helper is not an anchor: the normal form inlines it, and the NFA rules are stated on the lookup expression
+    `states[s].edges.get(&c)` itself (LOOKUP), so a builder that writes the lookup in place is covered by the same rules."""
     if not NR.ok:
         return
     lib = ctx.lib
-    b = NR.child_id
-    if b is None:
-        ctx.missing("NFA-CHILD", NR.N + "::child_id")
-        return
-    fv = FnView(lib, b)
-    t = pnorm(fv.resolve(fv.root.ret()))
-    look = C("alloc::collections::BTreeMap::get", F(nfa_state(Par(2)), "edges", NR.NS), Par(3))
-    ok = m(look, t)
-    if not ok and m(Phi(("agg", OPTION, "None", ()), ("agg", OPTION, "Some", (("0", P(look)),)), req=[0, 1]), t):
-        # `match edges.get(&c) { Some(&id) => Some(id), None => None }`: Some exactly when the lookup is Some (evaluated under both
-        # assumptions: no guard may turn a hit into None)
-        root = fv.root
-        is_look = lambda x: m(look, x)
-        somes = {bi for bi, si, st in b.stmts() if st["k"] == "assign" and st["lhs"]["local"] == 0 and not st["lhs"]["proj"] and
-                 st["rv"]["k"] == "aggregate" and st["rv"].get("variant") == "Some"}
-        nones = {bi for bi, si, st in b.stmts() if st["k"] == "assign" and st["lhs"]["local"] == 0 and not st["lhs"]["proj"] and
-                 st["rv"]["k"] == "aggregate" and st["rv"].get("variant") == "None"}
-        v_hit = cond.explore(root, [0], [], some_atoms=[(is_look, True)])
-        v_miss = cond.explore(root, [0], [], some_atoms=[(is_look, False)])
-        ok = v_hit is not None and v_miss is not None and bool(v_hit & somes) and not (v_hit & nones) and bool(v_miss & nones) and not (v_miss & somes)
-    ctx.check(ok, "NFA-CHILD", b, "edge-lookup", b.span, "child_id(state, c) must be states[state].edges.get(&c); returns %s" % show(t), show(t))
+    cands = [hb for hb in list(getattr(lib, "helper_bodies", {}).values()) + list(lib.bodies.values())
+             if hb.j.get("impl_adt") == NR.N and hb.name == "child_id" and not hb.is_closure]
+    lookups = 0
+    for fb_ in [NR.add] + list(NR.fail_passes):
+        if fb_ is not None:
+            fv_ = FnView(lib, fb_)
+            lookups += len(child_lookups(fv_, fv_.root, NR.NS))
+    ctx.check(lookups >= 3, "NFA-CHILD", NR.add, "lookups-present", NR.add.span,
+              "the insertion walk and both fail passes look children up in states[s].edges; found %d lookups" % lookups)
+    for b in cands:
+        fv = FnView(lib, b)
+        t = pnorm(fv.resolve(fv.root.ret()))
+        look = C(BT_GET, F(nfa_state(Par(2)), "edges", NR.NS), Par(3))
+        ok = m(look, t)
+        if not ok and m(Phi(("agg", OPTION, "None", ()), ("agg", OPTION, "Some", (("0", P(look)),)), req=[0, 1]), t):
+            # `match edges.get(&c) { Some(&id) => Some(id), None => None }`: Some exactly when the lookup is Some
+            root = fv.root
+            is_look = lambda x: m(look, x)
+            somes = {bi for bi, si, st in b.stmts() if st["k"] == "assign" and st["lhs"]["local"] == 0 and not st["lhs"]["proj"] and
+                     st["rv"]["k"] == "aggregate" and st["rv"].get("variant") == "Some"}
+            nones = {bi for bi, si, st in b.stmts() if st["k"] == "assign" and st["lhs"]["local"] == 0 and not st["lhs"]["proj"] and
+                     st["rv"]["k"] == "aggregate" and st["rv"].get("variant") == "None"}
+            v_hit = cond.explore(root, [0], [], some_atoms=[(is_look, True)])
+            v_miss = cond.explore(root, [0], [], some_atoms=[(is_look, False)])
+            ok = v_hit is not None and v_miss is not None and bool(v_hit & somes) and not (v_hit & nones) and bool(v_miss & nones) and not (v_miss & somes)
+        ctx.check(ok, "NFA-CHILD", b, "edge-lookup", b.span, "child_id(state, c) must be states[state].edges.get(&c); returns %s" % show(t), show(t))
 
 
 def rule_num_bytes(ctx, R, NR):
